@@ -30,8 +30,10 @@ def snapshot():
                     fn = getattr(av, "__func__", av)
                     if isinstance(fn, types.FunctionType):
                         _defaults(out, "%s.%s.%s" % (name, k, ak), fn)
-                    if ak.startswith("__") or callable(av) or isinstance(av, (staticmethod, classmethod, property, logging.Logger)):
+                    if ak.startswith("__") or isinstance(av, (staticmethod, classmethod, property, logging.Logger)):
                         continue
+                    if callable(av) and not isinstance(av, type):
+                        continue            # methods / functions; a CLASS stored as an attribute (a cached generated class) is data
                     out["%s.%s.%s" % (name, k, ak)] = _enc(av)
                 continue
             out["%s.%s" % (name, k)] = _enc(v)
